@@ -575,8 +575,9 @@ class GotWantException(AssertionError):
                     got = utils.color_text(got, 'red')
                     want = utils.color_text(want, 'red')
                 text = 'Expected:\n{}\nGot nothing\n'.format(utils.indent(want))
-            elif got:  # nocover
-                raise AssertionError('impossible state')
+            elif got:
+                # reachable: a want made only of <BLANKLINE> markers
+                # normalizes to nothing
                 text = 'Expected nothing\nGot:\n{}'.format(utils.indent(got))
             else:  # nocover
                 raise AssertionError('impossible state')
